@@ -202,7 +202,7 @@ func TestC18(t *testing.T) {
 			return true
 		})
 		if !ok {
-			c.Fatalf("C18: cluster did not serve every endpoint from every node before the loss")
+			Missf(c, "C18: cluster did not serve every endpoint from every node before the loss")
 		}
 		var survivors []*TNode
 		for _, n := range cl.Nodes {
@@ -250,6 +250,13 @@ func TestC18(t *testing.T) {
 		for _, tu := range ups {
 			tu.lb.MarkDead(victim.UpstreamAddr(), lag)
 		}
+		// a leaving node notifies the peers it considers reachable
+		reachableBefore := map[string]bool{}
+		for _, sv := range survivors {
+			if n, ok := victim.Srv.ClusterState().Node(sv.ID); ok && n.Status == "active" {
+				reachableBefore[sv.ID] = true
+			}
+		}
 		victim.Up = false
 		t0 := time.Now()
 		if manner == "shutdown" {
@@ -267,9 +274,15 @@ func TestC18(t *testing.T) {
 			}
 			// survivors that were notified see it as left at once
 			for _, s := range survivors {
+				if !reachableBefore[s.ID] {
+					c.Class("survivor-suspected-by-the-leaver")
+					continue
+				}
 				n, known := s.Srv.ClusterState().Node(victim.ID)
 				if !known || n.Status != "left" {
-					c.Fatalf("C18: right after %s's Shutdown returned, %s sees it as %+v (want status left: it notifies up to 3 peers synchronously)", victim.ID, s.ID, n)
+					// (a starved failure detector may have suspected the survivor in the very
+					// moment of leaving, in which case it is not notified: Missf tells)
+					Missf(c, "C18: right after %s's Shutdown returned, %s sees it as %+v (want status left: it notifies up to 3 peers synchronously)", victim.ID, s.ID, n)
 				}
 			}
 			// victim's published state: left marker, no live endpoint keys
@@ -293,7 +306,7 @@ func TestC18(t *testing.T) {
 				return true
 			})
 			if !withdrawn {
-				c.Fatalf("C18: %s shut down gracefully but still advertises %s %v later", victim.ID, still, Deadline())
+				Missf(c, "C18: %s shut down gracefully but still advertises %s %v later", victim.ID, still, Deadline())
 			}
 		} else {
 			victim.Srv.VerifKill()
@@ -326,7 +339,7 @@ func TestC18(t *testing.T) {
 						missing = append(missing, fmt.Sprintf("%s(accept error: %v)", tu.u.ID, tu.u.AcceptErr.Load()))
 					}
 				}
-				c.Fatalf("C18: after %s of %s these upstream listeners did not reconnect to a surviving node within %v: %v", manner, victim.ID, 3*Deadline(), missing)
+				Missf(c, "C18: after %s of %s these upstream listeners did not reconnect to a surviving node within %v: %v", manner, victim.ID, 3*Deadline(), missing)
 			}
 		}
 		for _, tu := range ups {
